@@ -171,9 +171,11 @@ CHECKS.update({
    note='Pairs within 1e-7 deg / 1e-9 of the tolerance / bandwidth boundary are excluded as the property allows.',
    technique='Lean 4 proof over the reals (trigonometric identities, rounding to the nearest multiple of pi) of generated definitions', design='6 C12'),
  'C13': dict(
-   text='Theorems: tolerance 180 selects every pair; azimuth+180 gives the same angle and band criteria; joint rotation of '
+   text='Theorems: tolerance 180 selects every pair - for the compass and, when half the bandwidth is at least the distance, for the '
+        'triangle (C13_isotropic_triangle; below that the band criterion excludes pairs: C13_triangle_band_limits); azimuth+180 gives the same angle and band criteria; joint rotation of '
         'coordinates (theta+phi mod 2pi) and azimuth (-phi) leaves them unchanged; for m sectors of width pi/m every '
-        'direction lies in at least one sector. Tie: metamorphic runs on the implementation.',
+        'direction lies in at least one sector. Tie: metamorphic runs on the implementation (isotropic relation for the compass and for '
+        'the triangle with bandwidths of 2.5 / 10 / 1e6 times the largest distance; rotation unless tied pairs sit on a lag edge).',
    note='Cases with a pair within 1e-7 deg of a sector boundary are excluded.',
    technique='Lean 4 proof over the reals (periodicity of the distance to pi*Z, rounding argument) + metamorphic correspondence', design='6 C13'),
  'C14': dict(
